@@ -1,5 +1,6 @@
 import Driver.Sexp
 import Driver.C14
+import Driver.C15
 import Driver.C20
 open Sx
 namespace Driver
@@ -10,6 +11,7 @@ def echo (args : List Sx) : Option Sx := some (.list args)
 def dispatch (op : String) (args : List Sx) : Option Sx :=
   if op == "echo" then echo args
   else if op.startsWith "c14." then C14.handle op args
+  else if op.startsWith "c15." then C15.handle op args
   else if op.startsWith "c20." then C20.handle op args
   else none
 
